@@ -40,6 +40,7 @@ func runC12(c *Ctx) {
 	ruleChannelTeardown(c, m, "R12.4")
 	ruleFailedInit(c)
 	ruleEndpointRelease(c)
+	ruleLoopNonBlocking(c, "R12.7")
 }
 
 // exception table for bare (non-select) blocking channel operations; one reason each. Keyed by
